@@ -61,13 +61,15 @@ def main():
     sel = sys.argv[1:]
     ds = sorted(glob.glob(os.path.join(VERIF, "selftest", "mutants", "*")))
     bad = 0
-    for d in ds:
-        if not os.path.isdir(d) or (sel and not any(s in os.path.basename(d) for s in sel)):
-            continue
-        name, verdict, info = run_one(d)
-        print(f"{verdict:24s} {name}: {info}")
-        if verdict not in ("caught", "caught-elsewhere"):
-            bad += 1
+    todo = [d for d in ds if os.path.isdir(d) and (not sel or any(s in os.path.basename(d) for s in sel))]
+    # a few mutants at a time: each check races three solvers per obligation already
+    from concurrent.futures import ThreadPoolExecutor
+    workers = int(os.environ.get("SELFTEST_JOBS", "3"))
+    with ThreadPoolExecutor(max_workers=workers) as ex:
+        for name, verdict, info in ex.map(run_one, todo):
+            print(f"{verdict:24s} {name}: {info}", flush=True)
+            if verdict not in ("caught", "caught-elsewhere"):
+                bad += 1
     sys.exit(1 if bad else 0)
 
 if __name__ == "__main__":
